@@ -140,6 +140,7 @@ let operand_of (k : opkind) (v : raw) : operand =
 (* ---------- blocks ---------- *)
 type blk = {
   bid : int; regs : int; flags : int; bytes : int; nconsts : int; nbind : int; nic : int; nhandlers : int;
+  fp_override : int;   (* env_fp=<n> in the block header (mutant cases of the sensitivity stage carry the block's real env_fp), else -1 *)
   mutable consts : (ckind * int) list;            (* reversed *)
   mutable bind_scopes : Stdlib.String.t list;
   mutable hs : handler list;                      (* reversed *)
@@ -158,7 +159,8 @@ let parse_block_header (parts : Stdlib.String.t list) : blk =
       let tbl = List.map kv rest in
       let g k = try int_of_string (List.assoc k tbl) with _ -> 0 in
       { bid = int_of_string bid; regs = g "regs"; flags = g "flags"; bytes = g "bytes"; nconsts = g "consts";
-        nbind = g "bindings"; nic = g "ics"; nhandlers = g "handlers"; consts = []; bind_scopes = []; hs = []; ins = [];
+        nbind = g "bindings"; nic = g "ics"; nhandlers = g "handlers";
+        fp_override = (try int_of_string (List.assoc "env_fp" tbl) with _ -> -1); consts = []; bind_scopes = []; hs = []; ins = [];
         decode_errs = [] }
   | _ -> raise (Decode "block header")
 
@@ -449,11 +451,26 @@ let duplicate_selector_lint (cb : codeblock) : Stdlib.String.t list =
           dups sigs
       | _ -> []) (instrs cb)
 
+(* ---------- binding locators against the environment chain (DeepLocators_C03.v) ---------- *)
+let scope_of_string (sc : Stdlib.String.t) : n option =
+  (* GlobalObject | GlobalDeclarative | Stack(n) *)
+  let l = Stdlib.String.length sc in
+  if l > 7 && Stdlib.String.sub sc 0 6 = "Stack(" then (try Some (n_of_int (int_of_string (Stdlib.String.sub sc 6 (l - 7)))) with _ -> None) else None
+
+(* env_fp of a block = absolute environment depth at the GetFunction that creates its closure in the parent block
+   (function_call: `env_fp = function.environments.len()`); 0 for the script and for the functions the script's
+   GlobalDeclarationInstantiation creates natively *)
+let fp_sites : (int, int list) Hashtbl.t = Hashtbl.create 16
+let main_block : int option ref = ref None
+let native_children : (int, unit) Hashtbl.t = Hashtbl.create 16
+
 (* ---------- per block verification ---------- *)
-type vblk = { b : blk; cb : codeblock; ok : bool; annot : depth2 list PositiveMap.t; resume_pcs : (int, unit) Hashtbl.t }
+type vblk = { b : blk; cb : codeblock; ok : bool; annot : depth2 list PositiveMap.t; resume_pcs : (int, unit) Hashtbl.t;
+              fp : int option; scopes : n option list }
 
 let verify_block (b : blk) : vblk =
   let cb = mk_codeblock b in
+  if !main_block = None then main_block := Some b.bid;
   let nins = List.length b.ins in
   List.iter (fun i -> bump cov_static (opname i.i_op)) b.ins;
   let resume_pcs = Hashtbl.create 8 in
@@ -467,7 +484,33 @@ let verify_block (b : blk) : vblk =
   if List.length b.consts <> b.nconsts then add "dump-inconsistent" "const count";
   if List.length b.hs <> b.nhandlers then add "dump-inconsistent" "handler count";
   let (annot, ierrs) = infer_full2 cb in
-  let v = b.decode_errs = [] && verify2 cb in
+  let fp =
+    if b.fp_override >= 0 then Some b.fp_override
+    else if !main_block = Some b.bid then Some 0
+    else match Hashtbl.find_opt fp_sites b.bid with
+      | Some (x :: r) -> Some (List.fold_left max x r)
+      | _ -> if Hashtbl.mem native_children b.bid then Some 0 else None in
+  let scopes = List.rev_map scope_of_string b.bind_scopes in
+  let loc_ok = (match fp with Some f -> locators_ok cb scopes (n_of_int f) annot | None -> true) in
+  let v = b.decode_errs = [] && verify2 cb && loc_ok in
+  (* closures this block creates: GetFunction { dst, index } at absolute depth fp + relative depth *)
+  (match fp with
+   | Some f ->
+       let consts = Array.of_list (List.rev b.consts) in
+       List.iter (fun i -> match i.i_op, i.i_args with
+           | Op_GetFunction, [_; AIdx k] when int_of_n k < Array.length consts ->
+               let nested = snd consts.(int_of_n k) in
+               List.iter (fun (d : depth2) ->
+                   let cur = try Hashtbl.find fp_sites nested with Not_found -> [] in
+                   Hashtbl.replace fp_sites nested ((f + int_of_n d.d2_base.d_env) :: cur)) (aget2 annot i.i_pc)
+           | _ -> ()) b.ins;
+       (* function constants of the script never created by a GetFunction: global function declarations *)
+       if !main_block = Some b.bid then
+         Array.iteri (fun idx (k, nested) ->
+             let named = List.exists (fun i -> match i.i_op, i.i_args with
+                 | Op_GetFunction, [_; AIdx k'] -> int_of_n k' = idx | _ -> false) b.ins in
+             if k = CFun && not named then Hashtbl.replace native_children nested ()) consts
+   | None -> ());
   (* structural diagnostics *)
   if not (wf_block cb) then begin
     List.iter (fun i -> if not (operands_ok cb i) then
@@ -514,6 +557,18 @@ let verify_block (b : blk) : vblk =
           add c t) stucks
     end
   end;
+  (match fp with
+   | Some f when not loc_ok ->
+       List.iter (fun i ->
+           List.iter (fun (d : depth2) ->
+               List.iter (fun bi ->
+                   if not (locator_ok scopes (n_of_int f) d bi) && List.length !errs < 40 then
+                     add "binding-locator-beyond-environment-chain"
+                       (Printf.sprintf "pc=%d %s binding %d has locator Stack(%s) but the chain has %d environments here (env_fp=%d + relative %d)"
+                          (int_of_n i.i_pc) (opname i.i_op) (int_of_n bi)
+                          (match scope_of scopes bi with Some n -> string_of_int (int_of_n n) | None -> "?")
+                          (f + int_of_n d.d2_base.d_env) f (int_of_n d.d2_base.d_env))) (binds_of i)) (aget2 annot i.i_pc)) b.ins
+   | _ -> ());
   let dup = duplicate_selector_lint cb in
   let errs = List.rev !errs in
   (* consequences of a duplicated selector (a `continue` executed as `return` pops a value that was never pushed) *)
@@ -523,13 +578,13 @@ let verify_block (b : blk) : vblk =
   let lint_only = dup <> [] && List.for_all (fun (c, t) -> c = "finally-dispatch-duplicate-selector" && List.mem t dup) errs in
   if v && errs <> [] && not lint_only then Printf.printf "err %d class=internal-verifier-disagreement verify=true but diagnostics exist\n" b.bid;
   if (not v) && errs = [] then Printf.printf "err %d class=internal-verifier-disagreement verify=false without a diagnostic\n" b.bid;
-  Printf.printf "blk %d %s nins=%d reach=%d handlers=%d\n" b.bid (if v then "ok" else "REJECT") nins
-    (List.length (PositiveMap.elements annot)) (List.length b.hs);
+  Printf.printf "blk %d %s nins=%d reach=%d handlers=%d env_fp=%s\n" b.bid (if v then "ok" else "REJECT") nins
+    (List.length (PositiveMap.elements annot)) (List.length b.hs) (match fp with Some f -> string_of_int f | None -> "?");
   List.iter (fun (c, t) -> Printf.printf "err %d class=%s %s\n" b.bid c t) errs;
-  { b; cb; ok = v; annot; resume_pcs }
+  { b; cb; ok = v; annot; resume_pcs; fp; scopes }
 
 (* ---------- dynamic validation of the abstract machine against the VM's depth log ---------- *)
-type drec = { dblock : int; frames : int; pc : int; op : int; stk : int; env : int; nb : int; it : int (* -1: not in the log *) }
+type drec = { dblock : int; frames : int; pc : int; op : int; stk : int; env : int; nb : int; it : int (* -1: not in the log *); efp : int (* env_fp, -1: not in the log *) }
 
 let rec replicate k x = if k <= 0 then [] else x :: replicate (k - 1) x
 
@@ -543,11 +598,39 @@ let validate (blocks : (int, vblk) Hashtbl.t) (log : drec list) : unit =
   let unknown = ref 0 in
   let report = ref [] in
   let wit = ref 0 and witness = ref [] in
+  let locchk = ref 0 in
   List.iter (fun (r : drec) ->
       Hashtbl.filter_map_inplace (fun k v -> if k > r.frames then None else Some v) last;
       (match Hashtbl.find_opt blocks r.dblock with
        | None -> incr unknown
        | Some vb ->
+           (* 0. env_fp and binding locators against the real chain (needs the env_fp column of the depth log) *)
+           (if r.efp >= 0 then begin
+              incr locchk;
+              (match vb.fp with
+               | Some f when f <> r.efp ->
+                   incr bad;
+                   if List.length !report < 20 then
+                     report := Printf.sprintf "%d env_fp: computed %d from the creating GetFunction, the frame has %d" r.dblock f r.efp :: !report
+               | _ -> ());
+              (match find_instr vb.cb (n_of_int r.pc) with
+               | Some i ->
+                   List.iter (fun bi -> match scope_of vb.scopes bi with
+                       | Some n when int_of_n n >= r.efp + r.env ->
+                           if vb.ok then begin
+                             incr bad;
+                             if List.length !report < 20 then
+                               report := Printf.sprintf "%d locator pc=%d %s binding %d Stack(%d) but environments.len()=%d" r.dblock r.pc (opname i.i_op)
+                                   (int_of_n bi) (int_of_n n) (r.efp + r.env) :: !report
+                           end else begin
+                             incr wit;
+                             if List.length !witness < 10 then
+                               witness := Printf.sprintf "%d class=binding-locator-beyond-environment-chain pc=%d %s executed with Stack(%d) and environments.len()=%d"
+                                   r.dblock r.pc (opname i.i_op) (int_of_n n) (r.efp + r.env) :: !witness
+                           end
+                       | _ -> ()) (binds_of i)
+               | None -> ())
+            end);
            (* 1. absolute comparison with the verifier's annotation *)
            (if vb.ok then
               match aget2 vb.annot (n_of_int r.pc) with
@@ -615,8 +698,8 @@ let validate (blocks : (int, vblk) Hashtbl.t) (log : drec list) : unit =
                           end))
             | _ -> ()));
       Hashtbl.replace last r.frames r) log;
-  Printf.printf "dyn pairs=%d ok=%d skipped=%d bad=%d annot_checked=%d annot_bad=%d unknown_block_records=%d witnesses=%d\n"
-    !pairs !okc !skipped !bad !ach !abad !unknown !wit;
+  Printf.printf "dyn pairs=%d ok=%d skipped=%d bad=%d annot_checked=%d annot_bad=%d unknown_block_records=%d witnesses=%d locator_records=%d\n"
+    !pairs !okc !skipped !bad !ach !abad !unknown !wit !locchk;
   List.iter (fun s -> Printf.printf "dynwit %s\n" s) (List.rev !witness);
   List.iter (fun s -> Printf.printf "dynbad %s\n" s) (List.rev !report)
 
@@ -636,7 +719,8 @@ let () =
     List.iter (fun (bid, nested) ->
         if not (Hashtbl.mem blocks nested) then Printf.printf "err %d class=dump-inconsistent function constant %d has no block\n" bid nested) !fconsts;
     if !log <> [] then validate blocks (List.rev !log);
-    Hashtbl.reset blocks; pending := []; log := []; fconsts := [] in
+    Hashtbl.reset blocks; pending := []; log := []; fconsts := [];
+    Hashtbl.reset fp_sites; Hashtbl.reset native_children; main_block := None in
   (try
      while true do
        let line = input_line stdin in
@@ -646,7 +730,8 @@ let () =
          | _ :: b :: f :: pc :: op :: s :: e :: nb :: rest ->
              log := { dblock = int_of_string b; frames = int_of_string f; pc = int_of_string pc; op = int_of_string op;
                       stk = int_of_string s; env = int_of_string e; nb = int_of_string nb;
-                      it = (match rest with x :: _ -> (try int_of_string x with _ -> -1) | [] -> -1) } :: !log
+                      it = (match rest with x :: _ -> (try int_of_string x with _ -> -1) | [] -> -1);
+                      efp = (match rest with _ :: y :: _ -> (try int_of_string y with _ -> -1) | _ -> -1) } :: !log
          | _ -> ()
        end
        else if n >= 4 && Stdlib.String.sub line 0 4 = "ins " then begin
